@@ -70,21 +70,49 @@ type genInc struct {
 }
 
 type gen struct {
-	r        *Rand
-	types    []string // declared user types (object types)
-	scalars  []string // declared scalar user types
-	anys     []string // declared free-form ({type: "any"}) user types
+	r          *Rand
+	types      []string // declared user types (object types)
+	scalars    []string // declared scalar user types
+	anys       []string // declared free-form ({type: "any"}) user types
 	lateDefect bool
-	enums    []string
-	tags     []string
-	macros   []*node
-	nType    int
-	features map[string]bool
-	opid     int
-	paths    map[string]bool
-	files    map[string][]*node // path -> nodes
-	order    []string
-	nfile    int
+	enums      []string
+	tags       []string
+	macros     []*node
+	nType      int
+	features   map[string]bool
+	opid       int
+	paths      map[string]bool
+	files      map[string][]*node // path -> nodes
+	order      []string
+	nfile      int
+	flat       map[string]*node // flat object types for bare references in Headers / Query (declared at the end)
+}
+
+// flatType: a user type that is a flat object of scalars, named from a small pool - different
+// projects declare the same name with different properties. Referred to without braces
+// ("Headers @hdrcat") from Headers and Query.
+func (g *gen) flatType() string {
+	name := "@hdr" + g.r.Pick(words[:4])
+	if _, ok := g.flat[name]; !ok {
+		var ll []string
+		n := g.r.Range(1, 3)
+		used := map[string]bool{}
+		for i := 0; i < n; i++ {
+			f := "X-" + g.r.Pick(fields) + "-" + g.r.Pick(words)
+			if used[f] {
+				continue
+			}
+			used[f] = true
+			ll = append(ll, fmt.Sprintf("  %q: %d,", f, g.r.Intn(100)))
+		}
+		ll[len(ll)-1] = strings.TrimSuffix(ll[len(ll)-1], ",")
+		if g.flat == nil {
+			g.flat = map[string]*node{}
+		}
+		g.flat[name] = &node{head: "TYPE " + name, body: append(append([]string{"{"}, ll...), "}")}
+		g.feat("flat-type-bare-reference")
+	}
+	return name
 }
 
 func (g *gen) feat(s string) { g.features[s] = true }
@@ -322,6 +350,9 @@ func (g *gen) response(code int) *node {
 			{head: "Headers", body: []string{"{", `  "X-Rate": 1`, "}"}},
 			{head: "Body", body: g.schemaLines(0, true)},
 		}
+		if g.r.Chance(1, 3) {
+			nd.kids[0] = &node{head: "Headers", body: []string{g.flatType()}}
+		}
 	default:
 		nd.head = fmt.Sprint(code)
 		nd.body = g.schemaLines(0, true)
@@ -344,6 +375,13 @@ func (g *gen) method(verb, p string, grouped bool) *node {
 			t2 := g.r.Pick(g.tags)
 			if !strings.Contains(t, t2) {
 				t += " " + t2
+			} else if g.r.Chance(1, 2) {
+				// the same tag twice, then another one: accepted by the builder
+				g.feat("repeated-tag")
+				t += " " + t2
+				if t3 := g.r.Pick(g.tags); t3 != t2 {
+					t += " " + t3
+				}
 			}
 		}
 		nd.kids = append(nd.kids, &node{head: t})
@@ -371,6 +409,9 @@ func (g *gen) method(verb, p string, grouped bool) *node {
 		if g.r.Chance(1, 2) {
 			q.head = `Query "a=1&b=2" htmlFormEncoded`
 		}
+		if g.r.Chance(1, 5) {
+			q.body = []string{g.flatType()}
+		}
 		nd.kids = append(nd.kids, q)
 	}
 	if verb != "GET" && verb != "DELETE" && g.r.Chance(2, 3) {
@@ -388,6 +429,9 @@ func (g *gen) method(verb, p string, grouped bool) *node {
 			rq.kids = []*node{
 				{head: "Headers", body: []string{"{", `  "Content-Type": "application/json"`, "}"}},
 				{head: "Body", body: g.schemaLines(0, true)},
+			}
+			if g.r.Chance(1, 3) {
+				rq.kids[0] = &node{head: "Headers", body: []string{g.flatType()}}
 			}
 		default:
 			rq.body = g.schemaLines(0, true)
@@ -606,6 +650,9 @@ func genValid(r *Rand) *Project {
 			blocks = append(blocks, g.resource())
 		}
 	}
+	for _, n := range sortedFlat(g.flat) {
+		blocks = append(blocks, n)
+	}
 	// types may be used before they are declared: shuffle the blocks
 	if r.Chance(1, 2) {
 		perm := r.Perm(len(blocks))
@@ -638,6 +685,19 @@ func genValid(r *Rand) *Project {
 	}
 	sortStrings(proj.Features)
 	return proj
+}
+
+func sortedFlat(m map[string]*node) []*node {
+	var names []string
+	for k := range m {
+		names = append(names, k)
+	}
+	sortStrings(names)
+	var out []*node
+	for _, k := range names {
+		out = append(out, m[k])
+	}
+	return out
 }
 
 func sortStrings(s []string) {
